@@ -384,6 +384,83 @@ pub fn run(tier: Tier, seed: u64) -> i32 {
         }
     });
 
+    // 7. label families: the label is the first thing the transcript absorbs,
+    // in full. One small program is compiled and proved, in this one process
+    // and in a scrambled order, under labels that share long prefixes / long
+    // suffixes / differ only by trailing NUL bytes or in length; every proof
+    // is shown to every verifier of its family. R-VER reads the label from
+    // the verifier bytes, so any history- or prefix-dependence of the real
+    // transcript shows as a decision or challenge difference.
+    {
+        let s = &specs[0];
+        let pp = crate::util::pp(common::min_degree(s.rows));
+        let mut rng = case_rng(seed, "C03.labels", 0);
+        let mut fams: Vec<Vec<Vec<u8>>> = Vec::new();
+        for p in [0usize, 1, 7, 8, 15, 16, 31, 32, 33, 48, 63, 64, 65, 127, 128, 200] {
+            let fill = 0x41 + (p % 7) as u8;
+            let pre = vec![fill; p];
+            let mut f: Vec<Vec<u8>> = Vec::new();
+            f.push(pre.clone());
+            for tail in [&b"a"[..], b"b", b"a\0", b"\0", b"ab", b"ba"] {
+                let mut l = pre.clone();
+                l.extend_from_slice(tail);
+                f.push(l);
+            }
+            // common suffix instead of common prefix
+            for head in [&b"x"[..], b"y"] {
+                let mut l = head.to_vec();
+                l.extend_from_slice(&pre);
+                f.push(l);
+            }
+            // same length, differing in the middle byte
+            if p >= 3 {
+                let mut l = pre.clone();
+                l[p / 2] ^= 0x20;
+                f.push(l);
+            }
+            f.sort();
+            f.dedup();
+            // scramble the order of first use
+            for i in (1..f.len()).rev() {
+                f.swap(i, rng.next_u32() as usize % (i + 1));
+            }
+            fams.push(f);
+        }
+        for (fi, fam) in fams.iter().enumerate() {
+            let mut made: Vec<(Vec<u8>, common::Compiled, Vec<u8>, Vec<u8>, Vec<BlsScalar>)> = Vec::new();
+            for l in fam {
+                match common::compile(&pp, l, &s.prog) {
+                    Ok(c) => {
+                        let p = common::prove(&c.prover, &s.prog, &s.inputs, &[], &mut rng, dusk_plonk::prelude::PlonkVersion::V3);
+                        match p.result {
+                            Ok((proof, pi)) => {
+                                let vb = c.verifier.to_bytes();
+                                made.push((l.clone(), c, vb, proof.to_bytes().to_vec(), pi));
+                            }
+                            Err(f) => ev.violation("C03:label-family:prove-failed", json!({"label": hex::encode(l), "error": f.text()})),
+                        }
+                    }
+                    Err(f) => ev.violation("C03:label-family:compile-failed", json!({"label": hex::encode(l), "error": f.text()})),
+                }
+            }
+            for (i, (li, _, _, proof_i, pi_i)) in made.iter().enumerate() {
+                for (j, (lj, cj, vbj, _, _)) in made.iter().enumerate() {
+                    let d = json!({"family": fi, "proof_label": hex::encode(li), "verifier_label": hex::encode(lj)});
+                    let (acc, _) = judge.triple("label-family", Some(&cj.verifier), vbj, proof_i, pi_i, Version::V3, d.clone());
+                    if i == j && !acc {
+                        ev.violation("C03:label-family:honest-proof-rejected", d.clone());
+                    }
+                    if i != j && (i + j) % 3 == 0 {
+                        // the same pair through the checked decoder
+                        judge.triple("label-family-decoded", None, vbj, proof_i, pi_i, Version::V3, d);
+                    }
+                }
+            }
+            ev.set_insert("label_family_prefix_lengths", fam.iter().map(|l| l.len()).min().unwrap_or(0));
+        }
+    }
+
+    ev.floor("label-family triples", ev.bucket_get("kind.label-family"), 800);
     ev.floor("decoded triples", ev.bucket_get("decoded"), 1000);
     ev.floor("real accepts", ev.bucket_get("real.accept"), 4);
     ev.floor("real rejects", ev.bucket_get("real.reject"), 500);
